@@ -194,7 +194,7 @@ func judge(p *plan, pre preState, s *sessLog) *verdict {
 		a := &s.Apps[i]
 		if cw, ok := checkpointWrite(a); ok {
 			stored, haveStored = cw, true
-			if cw.Multi {
+			if cw.Multi && cw.Off >= 0 { // (offset -1 is the "no position" marker, never a snapshot's offset)
 				c := cw
 				lastMulti = &c
 			}
@@ -207,6 +207,13 @@ func judge(p *plan, pre preState, s *sessLog) *verdict {
 		if tag := snapTag(id); tag != "" {
 			if first == "" {
 				first = "snapshot:" + tag
+			}
+			if cur != nil && cur.tag == tag && lastMulti != nil {
+				// the previous replay of this snapshot was completed (its position was stored) and
+				// nothing of the stream followed: another full resynchronisation begins
+				if !closeSnap(true) {
+					return finish(v, p, pre, s, first)
+				}
 			}
 			if cur == nil || cur.tag != tag {
 				if cur != nil {
